@@ -23,6 +23,10 @@ CONTAIN = {"components", "functions", "inputs", "outputs", "exchanges", "classes
 # the metamodel exposes one XML containment through several typed views: a Union created in `classes`
 # (with `_type: Union`) is listed by `unions`, not by `classes`
 VIEW = {("classes", "Union"): "unions"}
+# where `create` puts an element of a non-default class depends on the accessor's index arithmetic over the
+# typed view (two Unions created through `classes` end up in reverse order): an accessor-layer matter, so the
+# order inside such a view is not compared
+UNORDERED_VIEWS = set(VIEW.values())
 # class -> (scalar attrs, ref-valued scalar attrs {attr: target class}, list attrs {attr: (member class, containment?)})
 SCHEMA = {
     "LogicalComponent": (["name", "description"], {},
@@ -330,7 +334,7 @@ def render_impl(model, base: Base, promises: dict | None = None) -> dict:
         for a in ls:
             mem = [ref(x) for x in getattr(o, a)]
             if mem:
-                lists[a] = mem
+                lists[a] = sorted(mem) if a in UNORDERED_VIEWS else mem
         objs[tok[o.uuid]] = {"cls": cls, "scal": scal, "lists": lists}
     out = {"objs": objs}
     if promises is not None:
@@ -418,7 +422,7 @@ def render_model(ans: dict, base: Base) -> dict:
         for a in ls:
             mem = [ref(x) for x in lv.get(a, [])]
             if mem:
-                lists[a] = mem
+                lists[a] = sorted(mem) if a in UNORDERED_VIEWS else mem
         objs[tok[i]] = {"cls": cls, "scal": scal, "lists": lists}
     return {"objs": objs, "promises": {p: ref(i) for p, i in ans.get("promises", [])}}
 
